@@ -1,17 +1,24 @@
 package godi
 
-// Reproducers for the findings of the C09 slice (see /verif FINDINGS.md). Not part of any check
-// stream: run by hand with
+// Regression tests for the findings of the concurrency slice (FINDINGS.md: F1, F1', F2, F3; F4 is an
+// observation and stays a manual test). Package godi, injected with -overlay.
 //
-//	cd /repo && GOFLAGS=-mod=mod GOPROXY=off go test -overlay <overlay.json> -count=1 -run TestVerifFinding -v .
+// Stream "conc-regress" of C09 (TestVerifConcRegress) runs them on every check: F1 is deterministic,
+// F3 / F1' / F2 are searches with a budget (VERIF_REGRESS_BUDGET_MS per search; not being hit is the
+// passing outcome, so a small budget cannot flake). Each can also be run alone:
 //
-// Each test FAILS when the finding is present.
+//	go test -overlay <overlay.json> -count=1 -run TestVerifFinding -v .
 
 import (
 	"context"
+	"encoding/json"
 	"errors"
+	"fmt"
+	"os"
+	"path/filepath"
 	"reflect"
 	"runtime"
+	"strconv"
 	"sync"
 	"sync/atomic"
 	"testing"
@@ -20,6 +27,7 @@ import (
 
 type vfD struct {
 	entered chan struct{}
+	release chan struct{}
 	err     error
 }
 
@@ -27,125 +35,146 @@ func (d *vfD) Close() error {
 	if d.entered != nil {
 		close(d.entered)
 	}
+	if d.release != nil {
+		<-d.release
+	}
 	return d.err
 }
 
 var vfErr = errors.New("vf: disposal failed")
 
-// F1 (C12): a disposal error of a child scope is dropped by the parent's Close when the child's own
-// cancellation watcher - woken by the parent's cancel() - wins the child's CAS.
-//
-// Deterministic: the test holds parent.childrenMu, which stalls parent.Close between its cancel()
-// (scope.go:264) and the children snapshot (scope.go:268) - a delay the Go scheduler may produce by
-// itself. Meanwhile the watcher of the child closes the child and throws the error away
-// (scope.go:238-242); parent.Close then either does not see the child any more or waits for it at
-// scope.go:255 and gets nil.
-func TestVerifFindingChildDisposalErrorDropped(t *testing.T) {
-	run := func(stall bool, ownCtx bool) error {
-		d := &vfD{entered: make(chan struct{}), err: vfErr}
-		c := NewCollection()
-		if err := c.AddScoped(func() *vfD { return d }); err != nil {
-			t.Fatal(err)
-		}
-		p, err := c.Build()
-		if err != nil {
-			t.Fatal(err)
-		}
-		defer p.Close()
-		parent, err := p.CreateScope(context.Background())
-		if err != nil {
-			t.Fatal(err)
-		}
-		var cctx context.Context
-		if ownCtx {
-			cctx = context.Background() // not derived from the parent's context: the parent's cancel does not wake the watcher
-		}
-		child, err := parent.CreateScope(cctx)
-		if err != nil {
-			t.Fatal(err)
-		}
-		if _, err := child.Get(reflect.TypeOf((*vfD)(nil))); err != nil {
-			t.Fatal(err)
-		}
-		ps := parent.(*scope)
-		if stall {
-			ps.childrenMu.Lock()
-		}
-		errc := make(chan error, 1)
-		go func() { errc <- parent.Close() }()
-		if stall {
-			select {
-			case <-d.entered: // the watcher is disposing the child
-			case <-time.After(10 * time.Second):
-				t.Fatal("the child's watcher never ran")
-			}
-			ps.childrenMu.Unlock()
-		}
-		select {
-		case err := <-errc:
-			return err
-		case <-time.After(10 * time.Second):
-			t.Fatal("parent.Close hangs")
-			return nil
-		}
+func vfBudget(def time.Duration) time.Duration {
+	if ms, err := strconv.Atoi(os.Getenv("VERIF_REGRESS_BUDGET_MS")); err == nil && ms > 0 {
+		return time.Duration(ms) * time.Millisecond
 	}
-	if err := run(false, true); err == nil {
-		t.Fatalf("control: with a child whose context is not derived from the parent's, parent.Close must report the child's disposal error, got nil")
-	} else {
-		t.Logf("control (watcher not involved): parent.Close() = %v", err)
-	}
-	if err := run(true, false); err == nil {
-		t.Errorf("F1: parent.Close() returned nil although a disposable of its child scope failed with %q (the child's watcher won the CAS and dropped the error)", vfErr)
-	}
-	// how often does it happen without any stalling?
-	dropped := 0
-	const N = 300
-	for i := 0; i < N; i++ {
-		if run(false, false) == nil {
-			dropped++
-		}
-	}
-	t.Logf("without stalling: parent.Close() lost the child's error in %d of %d runs", dropped, N)
+	return def
 }
 
-// F2 (C14 / C13): scope.CreateScope can return, as a success, a child scope that is already closed,
-// and leave it in the provider's scope table until provider.Close: the parent's Close runs between
-// the registration in s.children (scope.go:216-223) and the registration in p.scopes (226-233); the
-// closed child's own `delete(p.scopes, s)` (304) has then already happened. Model-predicted (M6:
-// sAdd ; cCas…cSig ; sReg) - there is no user code in the window, so the reproducer is statistical.
-func TestVerifFindingClosedChildStaysInProviderTable(t *testing.T) {
+// F1 (C12, fixed by d23542b): the child's cancellation watcher wins the child's CAS and is inside a
+// failing Close method when the parent's Close arrives; the parent waits for the child and must
+// report the child's disposal error (it returned nil at 75920ef). Deterministic: the child has its own
+// cancellable context, its disposable parks inside Close.
+func vfF1() (bad bool, detail string) {
+	d := &vfD{entered: make(chan struct{}), release: make(chan struct{}), err: vfErr}
 	c := NewCollection()
-	if err := c.AddScoped(func() *vfD { return &vfD{} }); err != nil {
-		t.Fatal(err)
+	if err := c.AddScoped(func() *vfD { return d }); err != nil {
+		return true, err.Error()
 	}
 	p, err := c.Build()
 	if err != nil {
-		t.Fatal(err)
+		return true, err.Error()
+	}
+	defer p.Close()
+	parent, err := p.CreateScope(context.Background())
+	if err != nil {
+		return true, err.Error()
+	}
+	cctx, cancelChild := context.WithCancel(context.Background())
+	defer cancelChild()
+	child, err := parent.CreateScope(cctx)
+	if err != nil {
+		return true, err.Error()
+	}
+	if _, err := child.Get(reflect.TypeOf((*vfD)(nil))); err != nil {
+		return true, err.Error()
+	}
+	cancelChild() // the watcher closes the child ...
+	select {
+	case <-d.entered: // ... and is inside the disposable's Close now
+	case <-time.After(10 * time.Second):
+		return true, "the child's watcher never ran"
+	}
+	errc := make(chan error, 1)
+	go func() { errc <- parent.Close() }()
+	time.Sleep(2 * time.Millisecond) // let parent.Close reach the child (either order is fine for the property)
+	close(d.release)
+	select {
+	case err := <-errc:
+		if err == nil {
+			return true, "parent.Close() returned nil although a disposable of its child scope failed (the child's watcher won the CAS)"
+		}
+		return false, "parent.Close() = " + err.Error()
+	case <-time.After(10 * time.Second):
+		return true, "parent.Close hangs"
+	}
+}
+
+// F1' (C12, fixed by 0c7a2e0): a child that inherited the context is closed by its watcher, woken by
+// the parent's own cancel(); before the fix it could detach itself before the parent looked at its
+// children, and the parent's Close returned nil. Search with a budget.
+func vfF1prime(budget time.Duration) (bad bool, detail string) {
+	iters := 0
+	deadline := time.Now().Add(budget)
+	var stop atomic.Bool
+	for g := 0; g < 2*runtime.GOMAXPROCS(0); g++ { // oversubscribe, so that goroutines get descheduled
+		go func() {
+			for !stop.Load() {
+				runtime.Gosched()
+			}
+		}()
+	}
+	defer stop.Store(true)
+	for ; time.Now().Before(deadline); iters++ {
+		d := &vfD{err: vfErr}
+		c := NewCollection()
+		if err := c.AddScoped(func() *vfD { return d }); err != nil {
+			return true, err.Error()
+		}
+		p, err := c.Build()
+		if err != nil {
+			return true, err.Error()
+		}
+		parent, _ := p.CreateScope(context.Background())
+		child, _ := parent.CreateScope(nil)
+		if _, err := child.Get(reflect.TypeOf((*vfD)(nil))); err != nil {
+			return true, err.Error()
+		}
+		err = parent.Close()
+		p.Close()
+		if err == nil {
+			return true, fmt.Sprintf("after %d iterations parent.Close() returned nil although a disposable of its child scope failed", iters)
+		}
+	}
+	return false, fmt.Sprintf("not hit in %d iterations", iters)
+}
+
+// F2 (C14/C13, fixed by 64d7b34): scope.CreateScope returned an already closed child and left it in the
+// provider's scope table when the parent's Close ran between the two registrations. Search with a budget.
+func vfF2(budget time.Duration) (bad bool, detail string) {
+	c := NewCollection()
+	if err := c.AddScoped(func() *vfD { return &vfD{} }); err != nil {
+		return true, err.Error()
+	}
+	p, err := c.Build()
+	if err != nil {
+		return true, err.Error()
 	}
 	defer p.Close()
 	pp := p.(*provider)
-	hits := 0
-	deadline := time.Now().Add(30 * time.Second)
+	deadline := time.Now().Add(budget)
 	iters := 0
-	for ; hits == 0 && time.Now().Before(deadline); iters++ {
+	for ; time.Now().Before(deadline); iters++ {
 		parent, err := p.CreateScope(context.Background())
 		if err != nil {
-			t.Fatal(err)
+			return true, err.Error()
 		}
 		var wg sync.WaitGroup
+		var closedReturned atomic.Int64
 		for g := 0; g < 6; g++ {
 			wg.Add(1)
 			go func() {
 				defer wg.Done()
 				if child, err := parent.CreateScope(nil); err == nil {
-					defer child.Close()
+					_ = child
 				}
 			}()
 		}
 		wg.Add(1)
 		go func() { defer wg.Done(); parent.Close() }()
 		wg.Wait()
-		// everything created in this iteration has been closed by now
+		_ = closedReturned.Load()
+		// the parent's Close has returned: everything it owned is closed; nothing closed may be registered
+		hits := 0
 		pp.scopesMu.Lock()
 		for s := range pp.scopes {
 			select {
@@ -154,71 +183,157 @@ func TestVerifFindingClosedChildStaysInProviderTable(t *testing.T) {
 			default:
 			}
 		}
+		n := len(pp.scopes)
 		pp.scopesMu.Unlock()
+		if hits > 0 {
+			return true, fmt.Sprintf("after %d iterations %d closed scope(s) are still in the provider's scope table (%d entries)", iters, hits, n)
+		}
+		// children that were created after the parent's snapshot are open and registered: close them
+		pp.scopesMu.Lock()
+		var rest []*scope
+		for s := range pp.scopes {
+			rest = append(rest, s)
+		}
+		pp.scopesMu.Unlock()
+		for _, s := range rest {
+			s.Close()
+		}
 	}
-	if hits > 0 {
-		t.Errorf("F2: after %d iterations %d closed scope(s) are still referenced by the provider's scope table although their Close has returned", iters, hits)
-	} else {
-		t.Logf("F2 not hit in %d iterations", iters)
-	}
+	return false, fmt.Sprintf("not hit in %d iterations", iters)
 }
 
-// F3 (C13): a singleton resolution through a scope that overlaps provider.Close can return
-// ErrSingletonNotInitialized instead of the disposed error: the scope's disposed flag is read
-// (scope.go:127), provider.Close then closes the scope and clears the sync.Map (provider.go:242-247),
-// and the lock-free read (scope.go:458) misses. Model-predicted (M6: gChk ; pCas … pRest ; gLoad);
-// the window contains no user code, so the reproducer is statistical and usually needs many runs.
-func TestVerifFindingSingletonNotInitializedDuringClose(t *testing.T) {
+// F3 (C13, fixed by 0cb30f3): a singleton resolution that overlaps provider.Close returned
+// ErrSingletonNotInitialized. Search with a budget (it used to be hit within a few hundred providers).
+func vfF3(budget time.Duration) (bad bool, detail string) {
 	type G struct{}
 	var hits atomic.Int64
-	const N = 3000
-	for i := 0; i < N && hits.Load() == 0; i++ {
+	var other atomic.Value
+	deadline := time.Now().Add(budget)
+	iters := 0
+	for ; time.Now().Before(deadline) && hits.Load() == 0 && other.Load() == nil; iters++ {
 		c := NewCollection()
 		if err := c.AddSingleton(func() *G { return &G{} }); err != nil {
-			t.Fatal(err)
+			return true, err.Error()
 		}
 		p, err := c.Build()
 		if err != nil {
-			t.Fatal(err)
+			return true, err.Error()
 		}
 		s, err := p.CreateScope(context.Background())
 		if err != nil {
-			t.Fatal(err)
+			return true, err.Error()
 		}
 		var stop atomic.Bool
 		var wg sync.WaitGroup
 		for g := 0; g < 8; g++ {
 			wg.Add(1)
-			go func() {
+			go func(viaProvider bool) {
 				defer wg.Done()
 				for !stop.Load() {
-					_, err := s.Get(reflect.TypeOf((*G)(nil)))
-					if err != nil && !errors.Is(err, ErrScopeDisposed) && !errors.Is(err, ErrProviderDisposed) {
-						if errors.Is(err, ErrSingletonNotInitialized) {
-							hits.Add(1)
-						}
-						return
+					var err error
+					if viaProvider {
+						_, err = p.Get(reflect.TypeOf((*G)(nil)))
+					} else {
+						_, err = s.Get(reflect.TypeOf((*G)(nil)))
 					}
-					if err != nil {
+					switch {
+					case err == nil:
+					case errors.Is(err, ErrScopeDisposed), errors.Is(err, ErrProviderDisposed):
+						return
+					case errors.Is(err, ErrSingletonNotInitialized):
+						hits.Add(1)
+						return
+					default:
+						other.Store(err.Error())
 						return
 					}
 				}
-			}()
+			}(g%2 == 0)
 		}
 		p.Close()
 		stop.Store(true)
 		wg.Wait()
 	}
 	if hits.Load() > 0 {
-		t.Errorf("F3: Get of a singleton overlapping provider.Close returned ErrSingletonNotInitialized (%d times)", hits.Load())
+		return true, fmt.Sprintf("after %d providers a Get of a singleton overlapping provider.Close returned ErrSingletonNotInitialized", iters)
+	}
+	if o := other.Load(); o != nil {
+		return true, "a Get overlapping provider.Close returned an undocumented error: " + o.(string)
+	}
+	return false, fmt.Sprintf("not hit in %d providers", iters)
+}
+
+func TestVerifFindingF1ChildDisposalErrorCollected(t *testing.T) {
+	if bad, d := vfF1(); bad {
+		t.Errorf("F1: %s", d)
 	} else {
-		t.Logf("F3 not hit in %d runs (the window is a few instructions wide; the M6 schedule gChk ; provider.Close ; gLoad shows it)", N)
+		t.Log(d)
 	}
 }
 
-// F4 (observation, C10/C13 flavour): unlike scope.Close, a provider.Close that loses the CAS returns
-// nil at once, while the winner is still disposing - "Close returned" does not mean "closed".
-func TestVerifFindingProviderCloseLoserDoesNotWait(t *testing.T) {
+func TestVerifFindingF1primeChildDetachesFirst(t *testing.T) {
+	if bad, d := vfF1prime(vfBudget(20 * time.Second)); bad {
+		t.Errorf("F1': %s", d)
+	} else {
+		t.Log(d)
+	}
+}
+
+func TestVerifFindingF2ClosedChildInProviderTable(t *testing.T) {
+	if bad, d := vfF2(vfBudget(20 * time.Second)); bad {
+		t.Errorf("F2: %s", d)
+	} else {
+		t.Log(d)
+	}
+}
+
+func TestVerifFindingF3SingletonNotInitialized(t *testing.T) {
+	if bad, d := vfF3(vfBudget(10 * time.Second)); bad {
+		t.Errorf("F3: %s", d)
+	} else {
+		t.Log(d)
+	}
+}
+
+// TestVerifConcRegress is the stream "conc-regress" of C09.
+func TestVerifConcRegress(t *testing.T) {
+	dir := os.Getenv("VERIF_OUT")
+	if dir == "" {
+		t.Skip("VERIF_OUT not set: this test is driven by /verif/check")
+	}
+	budget := vfBudget(1500 * time.Millisecond)
+	type reg struct {
+		name, props string
+		run         func() (bool, string)
+	}
+	regs := []reg{
+		{"F1 child disposal error collected when the child's watcher closes it", "C09,C12", vfF1},
+		{"F3 singleton Get overlapping provider.Close", "C09,C13", func() (bool, string) { return vfF3(budget) }},
+		{"F1' child closed by its watcher during the parent's Close", "C09,C12", func() (bool, string) { return vfF1prime(budget) }},
+		{"F2 closed child in the provider's scope table", "C09,C14,C13", func() (bool, string) { return vfF2(budget) }},
+	}
+	var mon []byte
+	details := map[string]string{}
+	failures := 0
+	for i, r := range regs {
+		bad, d := r.run()
+		details[r.name] = d
+		if bad {
+			failures++
+			mon = append(mon, fmt.Sprintf("scenario=%d props=%s what=regression of a repaired finding: %s: %s\n  regress %s\n", i+1, r.props, r.name, d, r.name)...)
+		}
+	}
+	os.WriteFile(filepath.Join(dir, "mon.txt"), mon, 0o644)
+	st := map[string]any{"scenarios": len(regs), "nontrivial": len(regs), "distribution": map[string]int{"monitor_failures": failures},
+		"details": details, "budget_ms": budget.Milliseconds()}
+	b, _ := json.MarshalIndent(st, "", " ")
+	os.WriteFile(filepath.Join(dir, "stats.json"), b, 0o644)
+}
+
+// F4 (observation, not a regression test; fails by design): unlike scope.Close, a provider.Close that
+// loses the CAS returns nil at once, while the winner is still disposing. Run with
+// -run TestVerifObservationProviderCloseLoserDoesNotWait.
+func TestVerifObservationProviderCloseLoserDoesNotWait(t *testing.T) {
 	entered, release := make(chan struct{}), make(chan struct{})
 	var closed atomic.Bool
 	c := NewCollection()
@@ -250,48 +365,4 @@ func (x *vfParked) Close() error {
 	<-x.release
 	x.closed.Store(true)
 	return nil
-}
-
-// F1' (C12), residual after d23542b: the child's watcher can finish the child's disposal - including
-// `delete(parent.children, child)` (scope.go:311-315) - before the parent, which has just called
-// cancel(), takes its children snapshot (scope.go:284-290). The parent then never sees the child and
-// its Close returns nil although a disposable in its subtree failed. No user code in the window:
-// statistical.
-func TestVerifFindingChildDisposalErrorDroppedResidual(t *testing.T) {
-	lost, iters := 0, 0
-	deadline := time.Now().Add(20 * time.Second)
-	var spin atomic.Bool
-	for g := 0; g < 2*runtime.GOMAXPROCS(0); g++ { // oversubscribe, so that goroutines get descheduled
-		go func() {
-			for !spin.Load() {
-				runtime.Gosched()
-			}
-		}()
-	}
-	defer spin.Store(true)
-	for ; lost == 0 && time.Now().Before(deadline); iters++ {
-		d := &vfD{err: vfErr}
-		c := NewCollection()
-		if err := c.AddScoped(func() *vfD { return d }); err != nil {
-			t.Fatal(err)
-		}
-		p, err := c.Build()
-		if err != nil {
-			t.Fatal(err)
-		}
-		parent, _ := p.CreateScope(context.Background())
-		child, _ := parent.CreateScope(nil)
-		if _, err := child.Get(reflect.TypeOf((*vfD)(nil))); err != nil {
-			t.Fatal(err)
-		}
-		if err := parent.Close(); err == nil {
-			lost++
-		}
-		p.Close()
-	}
-	if lost > 0 {
-		t.Errorf("F1': after %d iterations parent.Close() returned nil although a disposable of its child scope failed (the child detached itself before the parent looked)", iters)
-	} else {
-		t.Logf("F1' not hit in %d iterations", iters)
-	}
 }
